@@ -174,6 +174,9 @@ type World struct {
 	// OnClientPacket, when set, is called (under the world lock) for every framed client packet
 	// after the standard processing; used by special drivers.
 	OnClientPacket func(t *Transport, p *Pkt, outcome string)
+	// AfterPrompt, when set (with PromptAcks), is called inside Transport.Write after the client's reader has consumed
+	// and dispatched the broker's answer to request p, before Write returns
+	AfterPrompt func(t *Transport, p *Pkt)
 }
 
 // NewWorld creates a world with the given plan.
@@ -946,6 +949,9 @@ func (t *Transport) Write(p []byte) (int, error) {
 				time.Sleep(20 * time.Microsecond)
 			}
 			time.Sleep(50 * time.Microsecond) // ... and dispatched
+			if t.W.AfterPrompt != nil {
+				t.W.AfterPrompt(t, pkt)
+			}
 		}
 		done++
 	}
